@@ -34,16 +34,25 @@ MANIFEST_ENTRY = {
             "quantile limits are ordered; the declared inverse is two-sided and CustomNormalization.inverse round-trips; INVARIANT "
             "over every history of operations on one object (calls, inverses, _set_limits, rejected operations, operations that "
             "raise): stretch kept, limits ordered, every returning call satisfies the property (history_invariant, "
-            "history_call_spec, history_frozen). The generated text and the hand model are run at Float against the real classes "
+            "history_call_spec, history_frozen); limits frozen from one frame and applied to any other frame (NaN / -inf / +inf), "
+            "in-place overwrites, masked iff NaN, order independence of the limits, buffer-level aliasing (Props/C20Ext.lean). The generated text and the hand model are run at Float against the real classes "
             "(exact equality on the float64 linear path, 1e-9 / 5e-4 otherwise), single calls and histories, and the property "
             "clauses are evaluated on the real outputs as the failing-input search.",
     "note": "Trusted: Lean kernel + propext/Classical.choice/Quot.sound, the tracer (≈1000 lines; cross-checked by the Float "
             "correspondence on the very functions it traces), NumPy ufunc/promotion/quantile/masked_invalid semantics (modelled, sampled), "
-            "IEEE rounding (theorems are over ℝ; measured deviation reported). Measured only: that __call__/inverse/rejected operations "
-            "leave the real object unchanged (the step function of the history model; stream nhist), aliasing (copy=False in-place "
-            "effect = return value; stream norm), ±inf/NaN pixels through the interval (hand model intervalExt). Degenerate limits "
-            "vmin=vmax make the 'limits to 0 and 1' clause unsatisfiable and are excluded from that clause only; inverted limits "
-            "(vmin>vmax) and LinearStretch with non-default slope/intercept are outside the quantifier (correspondence only). "
+            "IEEE rounding (theorems are over ℝ; measured deviation reported). Growth 6 (Props/C20Ext.lean): limits frozen from a frame A "
+            "(or a bool frame) and the object applied to ANY frame B never raises and obeys every clause pixel-wise (frozen_any_frame_spec, "
+            "frozen_any_frame_limits, bool_frozen_spec, create_frozen_any_frame_spec); A overwritten in place keeps untouched pixels and masks "
+            "the NaNs (frozen_inplace_nan); a pixel is masked iff it is NaN (norm_masked_iff_nan, call_mask_iff_nan); the limits of every "
+            "interval type and the whole call do not depend on the order of the pixels (getLimits_perm, call_perm); buffer-level model "
+            "(Model/NormAlias.lean): copy=False leaves the result in the caller's array, so discarding the stretch's return value is sound "
+            "(callBuf_nocopy, callBuf_copy, callViaBuffer_eq_call, callViaBuffer_copy_drops_stretch). Measured only: that __call__/inverse/"
+            "rejected operations leave the real object unchanged (the step function of the history model; stream nhist); that the real "
+            "stretches implement the buffer-level model (stream alias) and that results do not alias internal buffers (stream edge, "
+            "result-aliased); images with more than 2**20 pixels (predicate + closed-form comparison only, they do not cross to the Lean "
+            "driver); multi-array show_2d (stream grid: panel = array shown alone; the argument broadcasting itself is not modelled). "
+            "Degenerate limits vmin=vmax make the 'limits to 0 and 1' clause unsatisfiable and are excluded from that clause only; inverted "
+            "limits (vmin>vmax) and LinearStretch with non-default slope/intercept are outside the quantifier (correspondence only). "
             "Constructs the tracer cannot follow (data-dependent branches, float()/math.* on a parameter without the module's math, "
             "isinstance(param, float) validation, unknown ufuncs, dtype changes) surface as a broken tie, never as a crash.",
     "technique": "Lean 4 proof over tracer-generated definitions + model-vs-implementation correspondence (single calls and histories)",
@@ -51,7 +60,9 @@ MANIFEST_ENTRY = {
 RULE = ("a case is one (array, configuration, frozen|lazy) through CustomNormalization, one (stretch class, parameters, sample vector) "
         "through S / S.inverse / S∘S.inverse, one history on a stretch object (class, how the object is reached, parameter sequence), one "
         "history on a CustomNormalization (configuration, mode, operation sequence with rejected operations), one _resolve_normalization "
-        "call, or one _show_2d_* / show_2d call; distinct non-trivial = distinct "
+        "call, one _show_2d_* / show_2d call, one FIXED-block case (edge: special values x interval kind x frozen-other / frozen-inplace / "
+        "frozen-bool / lazy; integer threshold frames; > 2**20-pixel images; alias: class x parameters x copy; grid: layout x norm form); "
+        "distinct non-trivial = distinct "
         "(stream, dtype, ndim, mode, interval kind and which limits are explicit and their Python type, stretch class actually selected, "
         "NaN present, inf present, outcome; histories: class/how/length, rejected operations) with at least two distinct finite values")
 TRUSTED = ["harness/translator/stretch2lean.py (symbolic execution of the real classes → Lean; what it follows and what it refuses is in its docstring)",
@@ -67,6 +78,9 @@ ASSUMPTIONS = [
     "every input form of one declared configuration (keyword shorthand with one or both limits / quantiles, dict, NormalizationConfig) through the public show_2d must draw the identical image (ax.images[0]), and pixels at/beyond a declared limit are black/white; show_2d has no CustomNormalization-instance form and ignores keyword overrides next to a preset string, so those are not forms",
     "0-d and empty arrays, bool/complex dtypes and float16 are outside the quantifier (bool: correspondence only)",
     "histories: the stretches are public mutable dataclasses, so 'every stretch parameter' includes the parameter an object carries after an assignment of another ADMISSIBLE value (also on a copy.copy of the object, also reached as norm.stretch); an assignment of a colour limit that matplotlib REJECTS, or a call on an argument that cannot be normalised, is followed by valid calls which must satisfy the property as if the rejected operation had not happened. ACCEPTED assignments of norm.vmin/norm.vmax are not part of a history (what they mean for the interval is not for C20 to say)",
+    "fixed block 'edge': the frozen limits (norm.vmin, norm.vmax) must be the limits the configuration declares for the frame given at construction as it was THEN (1e-12 relative; quantile: NumPy's linear quantile as oracle) — not for a later frame and not for that frame after it was overwritten in place; with frozen limits a pixel that was not overwritten must be displayed exactly as before the overwrite, and the result of an earlier call must not change when the object is called again",
+    "images with more than 2**20 pixels: the limits reported / used must be the declared ones for ALL finite pixels of the image (1e-9 relative), pixels at/beyond them sit at exactly 0 / 1, pixels strictly inside strictly between 0 and 1 (default linear stretch), and every pixel equals clip01((x - vmin) / (vmax - vmin)) within 1e-9 (correspondence with the closed form the model is proved equal to)",
+    "multi-array show_2d: every panel must be drawn exactly as show_2d draws that array alone with the norm meant for that panel (only the unambiguous norm forms: one value for all panels, one per panel of a single row / column, a full 2-D list, None; ambiguous broadcasts are not used), and under a min-max norm the panel's own minimum / maximum are black / white",
     "in a history the limits the configuration declares for the array in hand (quantile: NumPy's linear quantile as oracle) decide 'at/beyond the limit -> 0 / 1', with slack max(1e-9, 1e-13**power)",
 ]
 EXPLANATION = ("Theorems in Props/C20.lean are about Generated/Stretch.lean (regenerated by executing the source each run) and Model/Norm.lean; "
@@ -2280,6 +2294,115 @@ def stream_alias(ctx, drv):
                          note="CustomNormalization.__call__ vs the buffer-level model (copy=False, return value discarded)")
 
 
+# stream "grid" (growth 6): the public show_2d with SEVERAL arrays (row / column / 2-D grid) and per-panel or shared norm
+# arguments (_normalize_show_input_to_grid, _norm_show_args, _normalize_show_args_to_grid).  Every panel must be drawn exactly
+# as show_2d draws that array alone with that norm (each array gets its own limits; a configuration object shared by the
+# panels or by two consecutive calls is not changed by drawing), and under a min-max norm the panel's own minimum / maximum
+# are black / white.  Fixed block.
+GRID_ARRAYS = [
+    {"dtype": "float32", "shape": [3, 4], "values": [-3.5, -1.0, 0.25, 0.5, 2.0, 4.75, 7.0, 9.5, 1.0, 1.5, 3.0, 8.0]},
+    {"dtype": "int16", "shape": [3, 4], "values": [300, 129, 128, 127, 255, 256, 1000, 32767, 500, 700, 900, -129]},
+    {"dtype": "float32", "shape": [3, 4], "values": [-100.0, -41.5, "nan", -40.0, -11.0, -8.0, "inf", -7.5, -3.25, -2.0, "-inf", -50.0]},
+    {"dtype": "float64", "shape": [4, 3], "values": [0.0, 0.125, 0.25, 0.375, 0.5, 0.625, 0.75, 0.875, 1.0, 2.0, 64.0, 0.0625]},
+]
+GRID_NORMS = {"none": None, "minmax": "minmax", "log": "log_minmax", "centered": "linear_centered",
+              "manual": {"interval_type": "manual", "vmin": -2.0, "vmax": 200.0, "stretch_type": "asinh"},
+              "quantile": {"interval_type": "quantile", "lower_quantile": 0.1, "upper_quantile": 0.9}}
+GRID_CASES = [
+    # (layout of array indices, norm argument as names, expected per-panel norm names)
+    ([[0, 1, 2]], ["minmax", "log", "manual"], [["minmax", "log", "manual"]]),
+    ([[0, 1, 2]], "minmax", [["minmax", "minmax", "minmax"]]),
+    ([[1, 0]], ["quantile"], [["quantile", "quantile"]]),
+    ([[0], [1], [2]], ["centered", "minmax", "log"], [["centered"], ["minmax"], ["log"]]),
+    ([[0, 1], [2, 3]], [["minmax", "manual"], ["log", "quantile"]], [["minmax", "manual"], ["log", "quantile"]]),
+    ([[2, 1], [0, 3]], None, [["none", "none"], ["none", "none"]]),
+    ([[3, 2, 1, 0]], "cfgobj:minmax", [["cfgobj:minmax"] * 4]),
+    ([[1, 2]], "cfgobj:quantile", [["cfgobj:quantile"] * 2]),
+]
+
+
+def one_grid(ctx, drv, case):
+    np = _np()
+    cn = _cn()
+    import matplotlib.pyplot as plt
+    from quantem.core.visualization import visualization as vis
+    layout, norm_names, expected = case["layout"], case["norm"], case["expected"]
+    arrays = [build_array(d) for d in GRID_ARRAYS]
+    shared = {}
+
+    def norm_of(name):
+        if isinstance(name, str) and name.startswith("cfgobj:"):
+            # ONE NormalizationConfig object for all panels (and for the single-panel references drawn afterwards)
+            if name not in shared:
+                base = GRID_NORMS[name.split(":", 1)[1]]
+                shared[name] = cn.NORMALIZATION_PRESETS[base]() if isinstance(base, str) else cn.NormalizationConfig(**base)
+            return shared[name]
+        v = GRID_NORMS[name]
+        return dict(v) if isinstance(v, dict) else v
+
+    def fresh(name):
+        # the reference (array shown alone) gets its own, newly built configuration
+        if isinstance(name, str) and name.startswith("cfgobj:"):
+            base = GRID_NORMS[name.split(":", 1)[1]]
+            return cn.NORMALIZATION_PRESETS[base]() if isinstance(base, str) else cn.NormalizationConfig(**base)
+        return norm_of(name)
+
+    def conv(x):
+        if isinstance(x, list):
+            return [conv(y) for y in x]
+        return norm_of(x) if x is not None else None
+
+    ctx.count()
+    nr, nc = len(layout), len(layout[0])
+    form = "single" if not isinstance(norm_names, list) else ("2d" if isinstance(norm_names[0], list) else "1d")
+    sig = f"show_2d:grid{nr}x{nc}:{form}"
+    ctx.dist["grid:" + sig] += 1
+    ctx.mark(("grid", nr, nc, form, str(norm_names)))
+    grid = [[arrays[k] for k in row] for row in layout]
+    arg = grid[0] if nr == 1 else grid
+    figs = []
+    try:
+        fig, axs = vis.show_2d(arg, norm=conv(norm_names))
+        figs.append(fig)
+        axs = np.asarray(axs).reshape(nr, nc)
+        for i in range(nr):
+            for j in range(nc):
+                k = layout[i][j]
+                img = np.array(axs[i, j].images[-1].get_array(), dtype=np.float64)
+                f1, a1 = vis.show_2d([arrays[k]], norm=fresh(expected[i][j]) if expected[i][j] != "none" else None)
+                figs.append(f1)
+                ref = np.array(a1.images[-1].get_array(), dtype=np.float64)
+                if img.shape != ref.shape or not np.array_equal(img, ref, equal_nan=True):
+                    idx = np.argwhere(np.any(img != ref, axis=-1))[0].tolist() if img.shape == ref.shape else None
+                    ctx.pred_fail("grid-panel:" + sig, f"panel ({i}, {j}) of a multi-array show_2d is not drawn like the same array shown alone with the same norm "
+                                  "(each array is normalised with its own limits)", case,
+                                  observed={"panel": [i, j], "array": k, "pixel": idx, "grid": None if idx is None else img[tuple(idx)].tolist(),
+                                            "alone": None if idx is None else ref[tuple(idx)].tolist()}, required="identical images")
+                    return
+                base = expected[i][j].split(":")[-1]
+                if base in ("minmax", "log"):
+                    a = arrays[k].astype(np.float64)
+                    finm = np.isfinite(a)
+                    lo_i = np.unravel_index(np.argmin(np.where(finm, a, np.inf)), a.shape)
+                    hi_i = np.unravel_index(np.argmax(np.where(finm, a, -np.inf)), a.shape)
+                    lv = (float(img[lo_i][0]), float(img[hi_i][0]))
+                    ctx.dist["grid:limits-clause-checked"] += 1
+                    if abs(lv[0]) > 1e-9 or abs(lv[1] - 1.0) > 1e-9:
+                        ctx.pred_fail("grid-limits:" + sig, f"panel ({i}, {j}) under a min-max norm: the panel's own minimum / maximum are not drawn black / white",
+                                      case, observed={"panel": [i, j], "array": k, "level_at_min": lv[0], "level_at_max": lv[1]}, required=[0.0, 1.0])
+                        return
+    except Exception as e:  # noqa
+        ctx.pred_fail("raises:" + sig, f"show_2d raised {err_name(e)} on a grid of admissible arrays", case, observed=str(e)[:200], required="images")
+    finally:
+        for f in figs:
+            plt.close(f)
+
+
+def stream_grid(ctx, drv):
+    for lay, nn, exp in GRID_CASES:
+        one_grid(ctx, drv, {"stream": "grid", "layout": lay, "norm": nn, "expected": exp})
+
+
 def stream_edge(ctx, drv):
     # fixed blocks: the same cases for every seed and tier
     for case in gen_edge_cases():
@@ -2303,6 +2426,7 @@ def run(ctx):
         stream_nhist(ctx, drv)
         stream_edge(ctx, drv)
         stream_alias(ctx, drv)
+        stream_grid(ctx, drv)
         stream_resolve(ctx, drv)
         stream_show(ctx, drv)
     finally:
@@ -2317,14 +2441,14 @@ def replay(ctx, rep):
     if case is None:
         ds = rep.get("correspondence_disagreements") or rep.get("disagreements") or [{}]
         case = ds[0].get("case")
-    if not case or case.get("stream") not in ("norm", "stretch", "resolve", "show", "forms", "shist", "nhist", "edge", "edge-big", "alias"):
+    if not case or case.get("stream") not in ("norm", "stretch", "resolve", "show", "forms", "shist", "nhist", "edge", "edge-big", "alias", "grid"):
         print("replay: no replayable case in file (tie-only report); re-running the quick streams")
         run(ctx)
         return True
     drv = Driver("C20")
     try:
         {"norm": one_norm, "stretch": one_stretch, "resolve": one_resolve, "show": one_show, "forms": one_forms,
-         "shist": one_shist, "nhist": one_nhist, "edge": one_edge, "edge-big": one_edge_big, "alias": one_alias}[case["stream"]](ctx, drv, case)
+         "shist": one_shist, "nhist": one_nhist, "edge": one_edge, "edge-big": one_edge_big, "alias": one_alias, "grid": one_grid}[case["stream"]](ctx, drv, case)
     finally:
         drv.close()
     return True
